@@ -44,7 +44,7 @@ def cases(tier, seed):
         if cls == 1:   # restrictive layers
             kw.update(p_custom=1.0, pen=True, p_gw=0.1)
         elif cls == 3:  # table rising through the root zone
-            kw.update(p_gw=1.0, gw_depths=(0.4, 0.7, 1.0, 1.4, 2.0))
+            kw.update(p_gw=1.0, gw_depths=(0.15, 0.25, 0.4, 0.7, 1.0, 1.4, 2.0))   # incl. tables shallower than Zmin
         elif cls == 2:  # drought: early senescence, crop death
             kw.update(dry=True, regimes=["arid", "hot"], methods=(0, 0, 3), p_file=0.1)
         if cls == 5 and i % 4 == 1:
